@@ -49,7 +49,9 @@ def L1(ctx):
         e = strip(body.expr_of_rvalue(w["stmt"]["rv"]))
         if role == "acquire":
             is_some_active = e[0] == "agg" and e[2] == "Some" and mentions_call(e, "rt::thread::Set::active_id")
-            guarded = unreachable_if(body, w["bb"], assume_calls({"std::option::Option::<T>::is_some": True}))
+            # in whatever spelling the test is written (is_some / is_none / if let / match): unreachable when the lock is held
+            guarded = unreachable_if(body, w["bb"], assume_option_field(MSTATE, "lock", True)) and \
+                not unreachable_if(body, w["bb"], assume_option_field(MSTATE, "lock", False))
             gexpr = [ge for (ge, pol, v, sb) in guard_atoms(body, w["bb"]) if mentions_field(ge, MSTATE, "lock")]
             if is_some_active and guarded and gexpr:
                 ctx.ok("L1", fk, "lock = Some(active) only when lock.is_none()", [site_str(prog, w["fn"], w["bb"])])
@@ -103,8 +105,8 @@ def L1(ctx):
         if role == "write":
             # only from None: every assignment of Some(Write(..)) is dominated by discr(lock) == None
             if "Write" in txt:
-                g = [(ge, val) for (ge, pol, val, sb) in guard_atoms(body, w["bb"]) if ge[0] == "discr" and mentions_field(ge, RSTATE, "lock")]
-                none_only = any(variant_of_discr_value(prog, ge, val) == "None" for (ge, val) in g if not isinstance(val, tuple))
+                none_only = unreachable_if(body, w["bb"], assume_option_field(RSTATE, "lock", True)) and \
+                    not unreachable_if(body, w["bb"], assume_option_field(RSTATE, "lock", False))
                 if none_only and mentions_call(e, "rt::thread::Set::active_id"):
                     ctx.ok("L1", fk, "lock = Write(active) only from None", [site_str(prog, w["fn"], w["bb"])])
                 else:
